@@ -535,12 +535,49 @@ ASSUME = ["float -> rational conversion (limit_denominator) with numeric re-chec
           "harness-side canonical index constructor and numpy indexing of result blocks"]
 
 
+def case_from_json(c):
+    """inverse of Case.describe()"""
+    dims = [np.array(d, dtype=np.int64) for d in c["dims"]]
+    fact = None
+    if c.get("fact"):
+        f = c["fact"]
+        vals = [[Fraction(x) for x in r] for r in f["vals"]]
+        fact = {"vals": vals, "valid": f["valid"], "form": f["form"], "dtype": f["dtype"], "oned": f["oned"],
+                "K": len(vals[0]) if vals else (1 if f["oned"] else len(f["valid"][0]) if f["valid"] else 1)}
+    w = None
+    if c.get("weights"):
+        w = dict(c["weights"])
+        if w["kind"] == "scalar":
+            w["w"] = Fraction(w["w"])
+        else:
+            w["w"] = [Fraction(x) for x in w["w"]]
+            if "w_event" in w:
+                w["w_event"] = [Fraction(x) for x in w["w_event"]]
+    fmt = tuple(c["fmt"])
+    return cb.Case(dims, tuple(c["ishape"]) if c.get("ishape") is not None else None, fact, w, c["ignore"], fmt, c["func"],
+                   Fraction(c["p"]) if c.get("p") else None)
+
+
 def replay(chk, path):
+    """re-execute the recorded evaluation on the current tree (same data, same encoding) and judge the fresh events;
+    pool traces and sessions are re-validated as recorded"""
     r = json.load(open(path))["replay"]
-    ev = r["event"]
-    res, verdicts = core.validate_batch("Trace_Cube.tla", "Trace_Cube.cfg", [ev], workers=1)
-    chk.add_tlc("replay (recorded event re-validated)", res)
-    chk.traces = 1
-    for v in verdicts[ev["tid"]]:
-        if v != "ok" and v.split(":")[0] == chk.pid:
-            chk.violation("%s" % v, json.dumps(r["meta"], default=str)[:500], r)
+    m = r.get("meta") or {}
+    if "case" not in m or m.get("cube") not in ("ccube", "xcube") or "event" not in r:
+        if "event" in r:
+            res, verdicts = core.validate_batch("Trace_Cube.tla", "Trace_Cube.cfg", [r["event"]], workers=1)
+            chk.add_tlc("replay (recorded event re-validated)", res)
+            chk.traces = 1
+            for v in verdicts[r["event"]["tid"]]:
+                if v != "ok" and v.split(":")[0] == chk.pid:
+                    chk.violation("%s" % v, json.dumps(m, default=str)[:500], r)
+        return
+    env = Env(core.SEED)
+    case = case_from_json(m["case"])
+    note = m.get("note") or {}
+    prop = r["event"].get("prop", chk.pid)
+    if m["cube"] == "ccube":
+        env.run_ccube(prop, case, commons=note.get("commons"), explicit=note.get("explicit_shape", True))
+    else:
+        env.run_xcube(prop, case, explicit=note.get("explicit_shape", True), dtype=np.dtype(note.get("dtype", "int64")))
+    judge(chk, env.rec, chk.pid)
